@@ -6,7 +6,7 @@ from spec import c20 as S
 AZ = [(0x41, 0x5A), (0x61, 0x7A)]
 BOUNDS = {
     "quick": "protocol laws: every url str of length 0..5 x protocol in {http, https:, ftp://, wss, any 1-2 letter alphabetic protocol}; "
-             "builders: 3 bases x 4 path shapes x args of <= 2 items with every key/value str of length <= 2 (or None/False/True/int) x fragment of length <= 2; "
+             "builders: 3 bases x 4 path shapes x args of <= 2 items with every key/value str of length <= 2 (or None / False / True / 7 / 0) x fragment of length <= 2; "
              "add/get_query_argument: 4 urls x name, value of length <= 2; pathsplit: every str of length <= 5",
     "thorough": "protocol laws: url length 0..7; builders: keys/values/fragment of length <= 3; add/get: length <= 3; pathsplit: length <= 7",
 }
@@ -32,7 +32,7 @@ def proto_laws(st, n, proto, np_=0):
 
 BASES = ["http://x.fr", "http://x.fr/", "http://x.fr/a//"]
 PATHS = [None, "p", "/p/q/", ["p", 3]]
-SPECIALS = [None, False, True, 7]
+SPECIALS = [None, False, True, 7, 0]
 
 
 def _val(st, name, kind, k):
